@@ -13,6 +13,8 @@ import (
 	"runtime"
 	"sort"
 	"strings"
+	"sync"
+	"sync/atomic"
 	"time"
 )
 
@@ -235,6 +237,8 @@ type Solver struct {
 	noCache  bool
 }
 
+var fileSeq int64
+
 var procSem = make(chan struct{}, runtime.NumCPU())
 
 func runOne(ctx context.Context, bin string, args []string) (string, string) {
@@ -289,9 +293,36 @@ func (sv *Solver) solveWith(text string, canary bool, secs int) SolveResult {
 	return c.solve(text, canary)
 }
 
+type flight struct {
+	once sync.Once
+	res  SolveResult
+}
+
+var inflight sync.Map // query hash -> *flight : identical queries are solved once per run
+
 func (sv *Solver) solve(text string, canary bool) SolveResult {
 	h := sha256.Sum256([]byte(text))
 	key := hex.EncodeToString(h[:])
+	if canary {
+		key = "c" + key[1:]
+	}
+	fk := fmt.Sprintf("%s/%d", key, int(sv.timeout.Seconds()))
+	v, _ := inflight.LoadOrStore(fk, &flight{})
+	fl := v.(*flight)
+	first := false
+	fl.once.Do(func() {
+		first = true
+		fl.res = sv.solveUncached(text, key, canary)
+	})
+	r := fl.res
+	if !first {
+		r.Millis = 0
+		r.Cached = true
+	}
+	return r
+}
+
+func (sv *Solver) solveUncached(text, key string, canary bool) SolveResult {
 	cfile := filepath.Join(sv.cacheDir, key[:2], key)
 	if !sv.noCache {
 		if b, err := os.ReadFile(cfile); err == nil {
@@ -303,7 +334,7 @@ func (sv *Solver) solve(text string, canary bool) SolveResult {
 			}
 		}
 	}
-	file := filepath.Join(sv.workDir, key[:16]+".smt2")
+	file := filepath.Join(sv.workDir, fmt.Sprintf("%s-%d.smt2", key[:16], atomic.AddInt64(&fileSeq, 1)))
 	os.WriteFile(file, []byte(text), 0o644)
 	defer os.Remove(file)
 	t0 := time.Now()
@@ -359,6 +390,9 @@ func (sv *Solver) race(file string, canary bool) SolveResult {
 		}()
 	}
 	best := SolveResult{Status: st, Solver: "z3-new", Output: out}
+	defer func() {
+		_ = best
+	}()
 	for i := 0; i < len(cmds); i++ {
 		x := <-ch
 		if x.st == "unsat" {
